@@ -121,6 +121,8 @@ theorem incRev_val (l : List Nat) (h : Bytes.WF l) :
 
 /-! ## `decrypt` by cases -/
 
+-- all four generated guards of `decrypt` are listed in each `simp only`, whether the branch at hand needs them or not
+set_option linter.unusedSimpArgs false in
 /-- `decrypt` either rejects and returns the core unchanged, or all checks passed: long enough, key id in
     range, slot present, nonce not below the window floor, body an intact seal under the slot's key and
     the reconstructed nonce -/
@@ -131,24 +133,31 @@ theorem decrypt_cases (c : Core) (d : Dgram) :
       c.decrypt d =
         ({ c with slots := c.slots.set d.keyId (Spec.C03.slotStep k (.accept (c.reconstruct d.counter))) }, .ok p)) := by
   by_cases h1 : d.len < Generated.EXTRA_LEN + Generated.TAG_LEN
-  · exact Or.inl ⟨.tooShort, by simp only [Core.decrypt, h1, if_true]⟩
-  by_cases h2 : d.keyId ≥ Core.SLOTS
-  · exact Or.inl ⟨.badKeyId, by simp only [Core.decrypt, h1, h2, if_true, if_false]⟩
+  · exact Or.inl ⟨.tooShort, by simp only [Core.decrypt, Generated.datagramTooShort, Generated.keyIdInvalid, Generated.nonceTooOld,
+          Generated.seenAdvances, decide_eq_true_eq, h1, if_true]⟩
+  by_cases h2 : d.keyId ≥ 4
+  · exact Or.inl ⟨.badKeyId, by simp only [Core.decrypt, Generated.datagramTooShort, Generated.keyIdInvalid, Generated.nonceTooOld,
+          Generated.seenAdvances, decide_eq_true_eq, h1, h2, if_true, if_false]⟩
   cases hk : c.slots[d.keyId]? with
-  | none => exact Or.inl ⟨.badKeyId, by simp only [Core.decrypt, h1, h2, hk, if_false]⟩
+  | none => exact Or.inl ⟨.badKeyId, by simp only [Core.decrypt, Generated.datagramTooShort, Generated.keyIdInvalid, Generated.nonceTooOld,
+          Generated.seenAdvances, decide_eq_true_eq, h1, h2, hk, if_false]⟩
   | some k =>
     by_cases h3 : c.reconstruct d.counter < k.min
-    · exact Or.inl ⟨.oldNonce, by simp only [Core.decrypt, h1, h2, hk, h3, if_true, if_false]⟩
+    · exact Or.inl ⟨.oldNonce, by simp only [Core.decrypt, Generated.datagramTooShort, Generated.keyIdInvalid, Generated.nonceTooOld,
+          Generated.seenAdvances, decide_eq_true_eq, h1, h2, hk, h3, if_true, if_false]⟩
     cases hb : d.body with
-    | garbage n => exact Or.inl ⟨.openFailed, by simp only [Core.decrypt, h1, h2, hk, h3, hb, if_false]⟩
+    | garbage n => exact Or.inl ⟨.openFailed, by simp only [Core.decrypt, Generated.datagramTooShort, Generated.keyIdInvalid, Generated.nonceTooOld,
+          Generated.seenAdvances, decide_eq_true_eq, h1, h2, hk, h3, hb, if_false]⟩
     | sealed key n p =>
       by_cases hkn : key = k.key ∧ n = c.reconstruct d.counter
       · refine Or.inr ⟨k, p, ?_, ?_, rfl, by omega, ?_, ?_⟩
         · simp only [Generated.EXTRA_LEN, Generated.TAG_LEN] at h1; omega
-        · simp only [Core.SLOTS] at h2; omega
+        · omega
         · rw [hkn.1, hkn.2]
-        · simp only [Core.decrypt, h1, h2, hk, h3, hb, hkn, if_false, if_true, and_self, Spec.C03.slotStep]
-      · exact Or.inl ⟨.openFailed, by simp only [Core.decrypt, h1, h2, hk, h3, hb, hkn, if_false]⟩
+        · simp only [Core.decrypt, Generated.datagramTooShort, Generated.keyIdInvalid, Generated.nonceTooOld,
+          Generated.seenAdvances, decide_eq_true_eq, h1, h2, hk, h3, hb, hkn, if_false, if_true, and_self, Spec.C03.slotStep]
+      · exact Or.inl ⟨.openFailed, by simp only [Core.decrypt, Generated.datagramTooShort, Generated.keyIdInvalid, Generated.nonceTooOld,
+          Generated.seenAdvances, decide_eq_true_eq, h1, h2, hk, h3, hb, hkn, if_false]⟩
 
 /-! ## histories (C03) -/
 
